@@ -48,6 +48,18 @@ def handle (line : String) : String :=
       | none => "panic"
       | some k => toHex k
     | _, _, _, _ => "bad-op"
+  else if o.cmd == "pbw" then
+    -- windows of a long key: `len=<n>[ sha256=<digest of the whole key>]|<i>:<bytes of block i inside the key>|…`
+    match o.hex? "pw", o.hex? "salt", o.int? "iter", o.nat? "keylen", o.natList? "blocks" with
+    | some pw, some salt, some iter, some kl, some blocks =>
+      if kl = 0 then "panic" else
+      let l := (kl + a.size - 1) / a.size
+      if blocks.any (fun i => i = 0 ∨ i > l) then "bad-op" else
+      let head := if o.str "full" == "1" then
+          s!"len={kl} sha256={toHex (sha256 (pbkdf2KeyLinear a pw salt iter kl))}"
+        else s!"len={kl}"
+      "|".intercalate (head :: blocks.map fun i => s!"{i}:{toHex (pbkdf2Window a pw salt iter kl i)}")
+    | _, _, _, _, _ => "bad-op"
   else if o.cmd == "kat" then
     match o.str "kind" with
     | "hkdf" =>
